@@ -227,6 +227,16 @@ def compound_spec(rng, depth, leaf, include=None):
         op = rng.choice({'and': ['np_and', 'bit_and', 'fn_and'], 'or': ['np_or', 'bit_or', 'fn_or'], 'xor': ['np_xor', 'bit_xor']}[op])
     r1 = compound_spec(rng, depth - 1, leaf)
     r2 = compound_spec(rng, depth - 1, leaf)
+    k = rng.random()
+    if k < 0.08:
+        # an operand combined with (an equal copy of) itself: A ^ A is empty, A | A and A & A are A
+        import copy
+        r2 = copy.deepcopy(r1)
+    elif k < 0.2 and 'center' in r1['p'] and 'center' in r2['p']:
+        # concentric operands, in either order (hole first or outline first), also crossed shapes
+        import copy
+        r2 = copy.deepcopy(r2)
+        r2['p']['center'] = copy.deepcopy(r1['p']['center'])
     d = S.reg('CompoundPixelRegion', region1=r1, region2=r2, operator=op)
     inc = rng.choice(['inherit', 'inherit', True, False, 0, 1]) if include is None else include
     if inc != 'inherit':
